@@ -15,7 +15,7 @@ DESCRIPTION = {
              "in a known option at the Options/Details position (whether the parsed message retains it or silently drops it; enc_* options are judged only in payload form, where they are read); re-marshalling an accepted message gives back the input value at the mutated slot (or omits a defaulted/ignored key) and "
              "parse(marshal(x)) is a fixed point.  Thorough tier adds an atheris (libFuzzer) target: octets -> (serializer, batched) -> unserialize; accepted messages must satisfy the same id/URI strictness and "
              "re-marshal.  Exhaustive per serializer: all 256 octet values substituted for and inserted before every octet of six valid messages, all truncations, containers nested up to 100000 deep.  Non-trivial = input differs from a valid message in exactly one slot or bytes decode to a list; "
-             "distinct by (class, slot, junk value, base digest)."),
+             "distinct by (class, slot, junk value, base digest). Every dictionary of every message (options / details, kwargs, roles, a role, its features, authextra, forward_for entries) additionally gets one key of a non-string type (int, +-2^20000, bytes, float, None, bool, tuple): options, details and kwargs with such a key must be rejected, nothing but a protocol error may be raised.  Session ids nested in options / details (caller, callee, publisher, resume-session, elements of exclude / eligible, forward_for sessions) outside 0..2^53 must not be accepted."),
     "assumptions": [
         "types of args/kwargs contents and unknown option keys are outside the statement (only accept-or-ProtocolError is required there)",
         "CBOR is used as carrier for structured mutations because it can represent every junk type (bytes, int keys)",
